@@ -1053,7 +1053,7 @@ class AirTouch4(pyairtouch.api.AirTouch):
                 # then all zones belong to it. Real-world messages have shown
                 # that the group_count can be zero for the first AC when there
                 # is only one AC.
-                ac_zones = list(self._zones.values())
+                ac_zones = [self._zones[zone_id] for zone_id in sorted(self._zones)]
 
             else:
                 # This is probably an old console which typically wouldn't be
